@@ -82,6 +82,9 @@ type Exec struct {
 	nextMap  int
 	fileData map[string]fileStub
 	hb       *hbState
+	syncs    map[*value]*syncObj
+	wtrack   map[*value]bool
+	wtrackM  map[*mapVal]bool
 	sched    *scheduler
 
 	// configuration
